@@ -86,7 +86,17 @@ func (s *esSub) snapshot() []esEvent {
 func c12Hist(c *caseCtx) (res caseResult) {
 	r := c.rng
 	wd := watchdog(c.tier)
-	e, mon, _, err := newMonitoredEngine()
+	// in half of the cases nobody but the actors of the history is ever subscribed (the subscriber set may
+	// become empty in between); the flushing monitor is then subscribed only after the last operation
+	var e *actor.Engine
+	var mon *eventMonitor
+	var err error
+	lateMonitor := c.n%8 >= 4
+	if lateMonitor {
+		e, err = actor.NewEngine(actor.NewEngineConfig())
+	} else {
+		e, mon, _, err = newMonitoredEngine()
+	}
 	if err != nil {
 		res.inconclusive("engine: %v", err)
 		return
@@ -137,7 +147,12 @@ func c12Hist(c *caseCtx) (res caseResult) {
 			ops = append(ops, fmt.Sprintf("Bcast(%d)", evN))
 		}
 	}
-	res.Desc = fmt.Sprintf("hist actors=%d ops=%d double-subscribes=%d cross-object-unsubscribes=%d", nA, nOps, dbl, cross)
+	res.Desc = fmt.Sprintf("hist actors=%d ops=%d double-subscribes=%d cross-object-unsubscribes=%d lateMonitor=%v", nA, nOps, dbl, cross, lateMonitor)
+	if lateMonitor {
+		mon = &eventMonitor{}
+		mp := e.Spawn(func() actor.Receiver { return mon }, "verifmonitor", actor.WithID("late"))
+		e.Subscribe(mp)
+	}
 	// flush: sentinel monitor sees the marker => the event stream has forwarded everything before it
 	if !mon.flush(e, wd) {
 		res.inconclusive("marker did not come back")
